@@ -28,7 +28,7 @@ SIDS = [0, 1, 2, 3, 5, 7, 101, 2 ** 31 - 1]
 ALPHABET = ("every public method; stream ids %s; send_data sizes {0,1,W,W+1,F+1} pad {None,-1,0,255,256,'1'}; "
             "increments {0,1,2^31-1,2^31}; ack sizes {-1,0,5}; header lists {valid, invalid (missing :path), "
             "wrong-role, block at frame limit -6..+1 with priority}; build actions: peer HEADERS/DATA/RST/PUSH_PROMISE/GOAWAY, "
-            "local request/response/data/end/reset/push, cleanup, close" % SIDS)
+            "local request/response/data/end/reset/push, update_settings(extension id), cleanup, close" % SIDS)
 BOUNDS = {"quick": "build depth 3, <=1 misuse deviation (followed by build actions), both roles",
           "thorough": "build depth 6, <=2 misuse deviations, both roles"}
 ASSUMPTIONS = [
@@ -115,11 +115,11 @@ class Spec:
         if self.client:
             self.build = ["l:req1", "l:req1e", "l:req3e", "l:data1", "l:end1", "l:rst1",
                           "rx:resp1", "rx:resp1e", "rx:D1", "rx:D1e", "rx:R1", "rx:PP1_2", "rx:resp2e",
-                          "cleanup", "l:close", "rx:goaway"]
+                          "cleanup", "l:close", "rx:goaway", "l:setx"]
         else:
             self.build = ["rx:H1", "rx:H1e", "rx:H3e", "rx:D1", "rx:D1e", "rx:R1",
                           "l:resp1", "l:resp1e", "l:data1", "l:end1", "l:rst1", "l:push1_2", "l:resp2e",
-                          "cleanup", "l:close", "rx:goaway"]
+                          "cleanup", "l:close", "rx:goaway", "l:setx"]
 
     def initial(self):
         s = S(self.client, True)
@@ -176,6 +176,9 @@ class Spec:
                 return h.api("reset_stream", 1)
             if a == "push1_2":
                 return h.api("push_stream", 1, 2, H.ni(H.REQ))
+            if a == "setx":
+                # a well-behaved call: an extension setting the connection holds no value for stays pending
+                return h.api("update_settings", {0x99: 1})
         if lab.startswith("rx:"):
             a = lab[3:]
             if a in ("H1", "H1e", "H3e"):
